@@ -109,7 +109,33 @@ def detect(sid, tier='quick', prop=None):
     return rc
 
 
+def summary():
+    rows = []
+    for sid in sorted(os.listdir(os.path.join(ROOT, 'seeded'))):
+        mp = os.path.join(ROOT, 'seeded', sid, 'meta.json')
+        if not os.path.exists(mp):
+            continue
+        m = json.load(open(mp))
+        det = m.get('detection', [])
+        d = '; '.join('%s -> %s (%ss)' % (x['check'], x['outcome'], x['wall_s']) for x in det) or 'not run'
+        first = ''
+        np_ = os.path.join(ROOT, 'seeded', sid, 'notes.md')
+        rows.append((sid, m['property'], d, m.get('why', '')))
+    out = ['# Seeded changes and what the checks print for them', '',
+           'Each change was produced by an independent sub-agent (property text + scratch worktree only), confirmed here (patch applies; 32+2 baseline tests pass',
+           'with it; demo.rs fails with it and passes without), then applied to /repo, the property\'s registered check run, and undone.', '',
+           '| seeded change | property | registered check -> outcome | comment |', '|---|---|---|---|']
+    for r in rows:
+        out.append('| %s | %s | %s | %s |' % r)
+    with open(os.path.join(ROOT, 'seeded', 'SUMMARY.md'), 'w') as f:
+        f.write('\n'.join(out) + '\n')
+    print('\n'.join(out))
+
+
 if __name__ == '__main__':
+    if sys.argv[1] == 'summary':
+        summary()
+        sys.exit(0)
     if sys.argv[1] == 'confirm':
         sys.exit(0 if confirm(sys.argv[2], sys.argv[3]) else 1)
     if sys.argv[1] == 'detect':
